@@ -34,6 +34,57 @@ class Function:
         self._addr_taken = None
         self._canon_cache = {}
         self._thru_calls = False
+        self._apply_recorded_names()
+
+    # ---- names ---------------------------------------------------------
+    def _apply_recorded_names(self):
+        """See tools/mkanchors.py: a local, parameter or field that was only
+        renamed is presented to the rules under the name recorded when the
+        rules were confirmed.  Nothing but names changes; when the locals of
+        a function were added to, removed or retyped the mapping is limited to
+        what can be matched unambiguously by type and order."""
+        A = _anchors()
+        if A is None:
+            return
+        ref = A["functions"].get("%s:%s" % (self.unit, self.name))
+        if ref is not None:
+            cur = [[p[0], p[3], p[2]] for p in self.params]
+            seen = set()
+            for nd in self.nodes:
+                if nd["k"] == "Var" and nd["decl"] not in seen:
+                    seen.add(nd["decl"])
+                    cur.append([nd["name"], nd.get("ct", nd.get("t", "")), nd["decl"]])
+            ren = {}
+            if len(cur) == len(ref) and all(c[1] == r[1] for c, r in zip(cur, ref)):
+                for c, r in zip(cur, ref):
+                    if c[0] != r[0]:
+                        ren[c[2]] = r[0]
+            else:
+                refnames = [r[0] for r in ref]
+                curnames = [c[0] for c in cur]
+                gone = [r for r in ref if r[0] not in curnames]
+                new = [c for c in cur if c[0] not in refnames]
+                # match per type, in order, only when the counts agree for that type
+                for t in set(r[1] for r in gone):
+                    g = [r for r in gone if r[1] == t]
+                    n = [c for c in new if c[1] == t]
+                    if len(g) == len(n):
+                        for c, r in zip(n, g):
+                            ren[c[2]] = r[0]
+            if ren:
+                for nd in self.nodes:
+                    if nd["k"] in ("Var", "DeclRef") and nd.get("decl") in ren:
+                        nd["name"] = ren[nd["decl"]]
+                for p in self.params:
+                    if p[2] in ren:
+                        p[0] = ren[p[2]]
+        fr = _field_renames(self.prog)
+        if fr:
+            for nd in self.nodes:
+                if nd["k"] == "Member":
+                    m = fr.get(nd.get("rec"))
+                    if m and nd["field"] in m:
+                        nd["field"] = m[nd["field"]]
 
     # ---- tree navigation ---------------------------------------------
     def n(self, i):
@@ -490,6 +541,44 @@ def _balanced_paren(s):
 
 
 NORETURN = ("__assert_fail", "abort", "exit", "_exit")
+_ANCHORS = [False]
+_FIELD_REN = {}
+
+
+def _anchors():
+    if _ANCHORS[0] is False:
+        p = os.path.join(build.VERIF, "anchors", "names.json")
+        if os.environ.get("SS_NO_ANCHORS") or not os.path.exists(p):
+            _ANCHORS[0] = None
+        else:
+            with open(p) as f:
+                _ANCHORS[0] = json.load(f)
+    return _ANCHORS[0]
+
+
+def _field_renames(prog):
+    """record -> {current field name: recorded name} for records whose fields
+    kept their number, order and types"""
+    A = _anchors()
+    if A is None:
+        return None
+    key = id(prog)
+    if key not in _FIELD_REN:
+        _FIELD_REN[key] = {}
+    out = _FIELD_REN[key]
+    for name, r in prog.records.items():
+        if name in out:
+            continue
+        ref = A["records"].get(name)
+        m = {}
+        if ref is not None:
+            cur = [[x[0], x[2]] for x in r["fields"]]
+            if len(cur) == len(ref) and all(c[1] == q[1] for c, q in zip(cur, ref)):
+                for c, q in zip(cur, ref):
+                    if c[0] != q[0]:
+                        m[c[0]] = q[0]
+        out[name] = m
+    return out
 
 
 class CFG:
@@ -908,14 +997,14 @@ class Program:
                 self.paths.update(build.extract(self.config, extra_sources=self.fixtures))
                 with open(self.paths[u]) as f:
                     d = json.load(f)
+            self.records.update(d["records"])
+            self.enums.update(d["enums"])
+            self.typedefs.update(d["typedefs"])
             fns = {}
             for fd in d["functions"]:
                 fns[fd["name"]] = Function(fd, u, self)
             d["_fns"] = fns
             self.units[u] = d
-            self.records.update(d["records"])
-            self.enums.update(d["enums"])
-            self.typedefs.update(d["typedefs"])
         return self.units[u]
 
     def load_all(self):
